@@ -11,11 +11,34 @@ import os, re, time
 import z3
 
 from . import parse as P
-from .exec import (Executor, State, Agg, EnumV, RefV, SeqV, Opaque, FnV, ClosureV, UNIT, Outcome, Panic, enum_name_of_type)
+from .exec import (IterV, Executor, State, Agg, EnumV, RefV, SeqV, Opaque, FnV, ClosureV, UNIT, Outcome, Panic, enum_name_of_type)
 from .parse import Unsupported, split_top
 from .summaries import COMMON, compile_table, ok1
 
 W = 8                        # width of positions (lines of at most 200 bytes)
+
+
+def fast_and(cs):
+    """z3.And without the per-argument coercion of the Python wrapper (path conditions here have hundreds of conjuncts)"""
+    cs = list(cs)
+    if not cs:
+        return z3.BoolVal(True)
+    if len(cs) == 1:
+        return cs[0]
+    ctx = cs[0].ctx
+    arr = (z3.Ast * len(cs))(*[c.as_ast() for c in cs])
+    return z3.BoolRef(z3.Z3_mk_and(ctx.ref(), len(cs), arr), ctx)
+
+
+def fast_or(cs):
+    cs = list(cs)
+    if not cs:
+        return z3.BoolVal(False)
+    if len(cs) == 1:
+        return cs[0]
+    ctx = cs[0].ctx
+    arr = (z3.Ast * len(cs))(*[c.as_ast() for c in cs])
+    return z3.BoolRef(z3.Z3_mk_or(ctx.ref(), len(cs), arr), ctx)
 
 
 def pos(i):
@@ -597,7 +620,129 @@ def s_slice_get_last(ex, st, callee, args, argv, f):
     return ok1(st, EnumV("Option", d, {1: [b]}))
 
 
+def s_slice_split_first(ex, st, callee, args, argv, f):
+    v = _sl(ex, st, argv[0])
+    which = callee.rsplit("::", 1)[-1]
+    d = z3.simplify(z3.If(v.e == v.s, z3.BitVecVal(0, 64), z3.BitVecVal(1, 64)))
+    if which == "split_first":
+        pair = Agg([v.at(0), SliceV(v.line, v.s + 1, v.e)])
+    else:
+        pair = Agg([v.line.at(v.e - 1), SliceV(v.line, v.s, v.e - 1)])
+    return ok1(st, EnumV("Option", d, {1: [pair]}))
+
+
+def _byte_pred(ex, st, clo, by_ref=True):
+    """the closure |&b| -> bool as a function on byte terms (run once on a fresh symbol; must be straight-line)"""
+    x = z3.BitVec("pred_arg!%d" % id(clo), 8)
+    outs = ex.call_closure(st, clo, [x])
+    if len(outs) != 1 or outs[0].panic is not None or len(outs[0].st.pc) != len(st.pc):
+        raise Unsupported("byte predicate closure is not a straight-line function")
+    r = outs[0].ret
+    if z3.is_bv(r):
+        r = r != 0
+    return lambda b: z3.substitute(r, (x, b))
+
+
+def _iter_slice(ex, st, it):
+    it = ex.deref_val(st, it)
+    sl = ex.deref_val(st, it.e) if isinstance(it, Opaque) and it.tag == "iter" else None
+    if not isinstance(sl, SliceV):
+        raise Unsupported("iterator over %r" % (it,))
+    return sl
+
+
+def s_iter_position(ex, st, callee, args, argv, f):
+    sl = _iter_slice(ex, st, argv[0])
+    pred = _byte_pred(ex, st, argv[1])
+    q = sl.line.first(pred, sl.s, sl.e)
+    d = z3.simplify(z3.If(z3.ULT(q, sl.e), z3.BitVecVal(1, 64), z3.BitVecVal(0, 64)))
+    # the iterator is left after the found element (or exhausted)
+    if isinstance(argv[0], RefV):
+        ex.write_ref(st, argv[0], [], IterV(SliceV(sl.line, z3.If(z3.ULT(q, sl.e), q + 1, sl.e), sl.e)))
+    return ok1(st, EnumV("Option", d, {1: [z3.ZeroExt(64 - W, q - sl.s)]}))
+
+
+def s_iter_any_all(ex, st, callee, args, argv, f):
+    sl = _iter_slice(ex, st, argv[0])
+    pred = _byte_pred(ex, st, argv[1])
+    which = callee.split("::<")[0].rsplit("::", 1)[-1]
+    if which == "any":
+        q = sl.line.first(pred, sl.s, sl.e)
+        return ok1(st, z3.ULT(q, sl.e))
+    q = sl.line.first(lambda b: z3.Not(pred(b)), sl.s, sl.e)
+    return ok1(st, q == sl.e)
+
+
+def s_slice_contains(ex, st, callee, args, argv, f):
+    v = _sl(ex, st, argv[0])
+    x = ex.deref_val(st, argv[1])
+    if not z3.is_bv(x):
+        raise Unsupported("contains(%r)" % (x,))
+    q = v.line.first(lambda b: b == x, v.s, v.e)
+    return ok1(st, z3.ULT(q, v.e))
+
+
+def s_slice_get(ex, st, callee, args, argv, f):
+    v, i = _sl(ex, st, argv[0]), argv[1]
+    if not z3.is_bv(i):
+        raise Unsupported("slice get(%r)" % (i,))
+    d = z3.simplify(z3.If(z3.ULT(i, v.length64()), z3.BitVecVal(1, 64), z3.BitVecVal(0, 64)))
+    return ok1(st, EnumV("Option", d, {1: [v.at(i)]}))
+
+
+def _slice_eq_term(ex, st, a, b):
+    a, b = ex.deref_val(st, a), ex.deref_val(st, b)
+    if isinstance(a, Opaque) and isinstance(b, SliceV):
+        a, b = b, a
+    if isinstance(a, SliceV) and isinstance(b, Opaque):
+        lit = const_bytes(b)
+        return z3.And(a.e - a.s == len(lit), *[a.at(pos(i)) == c for i, c in enumerate(lit)])
+    if isinstance(a, SliceV) and isinstance(b, Agg) and all(z3.is_bv(x) for x in b.fields):
+        return z3.And(a.e - a.s == len(b.fields), *[a.at(pos(i)) == c for i, c in enumerate(b.fields)])
+    if isinstance(a, SliceV) and isinstance(b, SliceV):
+        if a.line is not b.line:
+            raise Unsupported("comparison of slices of different lines")
+        n = a.e - a.s
+        return z3.And(n == b.e - b.s, *[z3.Or(z3.UGE(pos(i), n), a.at(pos(i)) == b.at(pos(i))) for i in range(a.line.N)])
+    raise Unsupported("slice comparison %r == %r" % (a, b))
+
+
+def s_slice_eq(ex, st, callee, args, argv, f):
+    e = _slice_eq_term(ex, st, argv[0], argv[1])
+    return ok1(st, z3.Not(e) if callee.rstrip().endswith("::ne") else e)
+
+
+def s_slice_starts_with(ex, st, callee, args, argv, f):
+    a, b = _sl(ex, st, argv[0]), ex.deref_val(st, argv[1])
+    lit = const_bytes(b) if isinstance(b, Opaque) else None
+    if lit is None:
+        raise Unsupported("starts_with(%r)" % (b,))
+    which = callee.rsplit("::", 1)[-1]
+    n = len(lit)
+    if which == "starts_with":
+        return ok1(st, z3.And(z3.UGE(a.e - a.s, n), *[a.at(pos(i)) == c for i, c in enumerate(lit)]))
+    return ok1(st, z3.And(z3.UGE(a.e - a.s, n), *[a.line.at(a.e - n + i) == c for i, c in enumerate(lit)]))
+
+
+def s_str_as_bytes(ex, st, callee, args, argv, f):
+    return ok1(st, _sl(ex, st, argv[0]))
+
+
+def s_str_bytes(ex, st, callee, args, argv, f):
+    return ok1(st, IterV(_sl(ex, st, argv[0])))
+
+
 SLICE_OPS = [
+    (r"^core::slice::<impl \[u8\]>::(?:split_first|split_last)$", s_slice_split_first),
+    (r"^<(?:std::|core::)?slice::Iter<'_, u8> as Iterator>::position::<", s_iter_position),
+    (r"^<(?:std::|core::)?slice::Iter<'_, u8> as Iterator>::(?:any|all)::<", s_iter_any_all),
+    (r"^core::slice::<impl \[u8\]>::contains$", s_slice_contains),
+    (r"^core::slice::<impl \[u8\]>::get::<usize>$", s_slice_get),
+    (r"^<&?\[u8\] as PartialEq<&?\[u8(?:; \d+)?\]>>::(?:eq|ne)$|^<&?str as PartialEq<&?str>>::(?:eq|ne)$", s_slice_eq),
+    (r"^core::slice::<impl \[u8\]>::(?:starts_with|ends_with)$", s_slice_starts_with),
+    (r"^core::str::<impl str>::as_bytes$", s_str_as_bytes),
+    (r"^core::str::<impl str>::bytes$", s_str_bytes),
+
     (r"^core::slice::<impl \[u8\]>::is_empty$", s_slice_is_empty),
     (r"^core::slice::<impl \[u8\]>::len$", s_slice_len),
     (r"^<\[u8\] as Index<Range(?:To|From)?<usize>>>::index$", s_slice_index_range),
@@ -629,8 +774,11 @@ def ite_val(c, a, b):
                 pl[k] = fa if fa is not None else fb
             else:
                 pl[k] = [ite_val(c, x, y) for x, y in zip(fa, fb)]
-        d = z3.simplify(z3.If(c, da, db))
-        return EnumV(a.ety, d.as_long() if z3.is_bv_value(d) else d, pl)
+        if isinstance(a.disc, int) and isinstance(b.disc, int) and a.disc == b.disc:
+            return EnumV(a.ety, a.disc, pl)
+        # (no simplify here: c is the whole path condition of one outcome and simplifying it again and again dominated the run time)
+        d = da if da.eq(db) else z3.If(c, da, db)
+        return EnumV(a.ety, d, pl)
     if isinstance(a, Agg) and isinstance(b, Agg) and len(a.fields) == len(b.fields):
         return Agg([ite_val(c, x, y) for x, y in zip(a.fields, b.fields)], a.tyname)
     if isinstance(a, Opaque) and isinstance(b, Opaque):
@@ -646,13 +794,16 @@ def merge_outcomes(st, outs):
     base = len(st.pc)
     groups = {}
     keep = []
+    panics = {}
     for o in outs:
         if o.panic is not None:
-            keep.append(o)
+            # one outcome per panic site: the disjunction of the conditions under which it is reached
+            cond = fast_and(o.st.pc[base:])
+            panics.setdefault((o.panic.msg, o.panic.where), []).append((cond, o))
             continue
         r = o.ret
         key = "ok" if r.disc == 0 else "err%d" % r.payloads[1][0].disc
-        cond = z3.And(*o.st.pc[base:]) if len(o.st.pc) > base else z3.BoolVal(True)
+        cond = fast_and(o.st.pc[base:])
         groups.setdefault(key, []).append((cond, o))
     res = []
     for key, items in groups.items():
@@ -664,8 +815,19 @@ def merge_outcomes(st, outs):
         for c, o in reversed(items[:-1]):
             val = ite_val(c, o.ret, val)
         s2 = st.clone()
-        s2.pc.append(z3.Or(*conds))
+        s2.pc.append(fast_or(conds))
         res.append(Outcome(s2, ret=val))
+    for (msg, where), items in panics.items():
+        if len(items) == 1:
+            keep.append(items[0][1])
+            continue
+        c = fast_or([c for c, _ in items])
+        if z3.is_false(c):
+            continue
+        s2 = st.clone()
+        s2.frames = items[0][1].st.frames
+        s2.pc.append(c)
+        keep.append(Outcome(s2, panic=items[0][1].panic))
     return res + keep
 
 
